@@ -1,7 +1,7 @@
 (* C15 - trigonometric gateways.  Pinned theorems only. *)
 From Coq Require Import ZArith List Bool Reals Lra.
 From Flocq Require Import Core BinarySingleNaN.
-Require Import GV.FloatBase GV.FloatLemmas GV.AngleM GV.AngleProofs GV.GeonumM GV.GeonumProofs GV.TraitsM GV.NewProofs GV.CtorProofs GV.PiBounds GV.TrigProofs GV.DotValue GV.DistValue GV.DirProofs GV.SymProofs GV.ClosureProofs GV.SwapProofs.
+Require Import GV.FloatBase GV.FloatLemmas GV.AngleM GV.AngleProofs GV.GeonumM GV.GeonumProofs GV.TraitsM GV.NewProofs GV.CtorProofs GV.PiBounds GV.TrigProofs GV.DotValue GV.DistValue GV.DirProofs GV.SymProofs GV.ClosureProofs GV.SwapProofs GV.TraitsProofs GV.BoundProofs GV.SumUpper GV.ProdProofs GV.FieldProofs GV.TanProofs.
 Open Scope R_scope.
 
 (* cos: |value| at blade 0 / 2; sin: |value| at blade 1 / 3; remainder exactly 0; for EVERY libm *)
@@ -67,3 +67,13 @@ Theorem C15_opp_value : forall (L : libm) (u : R) g, sin_acc L u -> u <= / 1000 
     <= Rabs (R_ (mag g)) * (u + 3 / 1000000000000000) + bpow radix2 (-1075).
 Proof. exact opp_mag_value. Qed.
 Print Assumptions C15_opp_value.
+
+(* tan = sin / cos: for |sin|, |cos| >= 1/1000 the magnitude carried by Geonum::tan is |tan(dir)| within a relative
+   1.04 (2000 w + 3*2^-52), w = u + 2.5e-15 *)
+Theorem C15_tan_value : forall (L : libm) (u : R) a, cos_acc L u -> sin_acc L u -> u <= / 1000000 -> canonp (rem a) ->
+  / 1000 <= Rabs (cos (dir a)) -> / 1000 <= Rabs (sin (dir a)) ->
+  forall t, gtan L a = Some t -> fin (mag t) ->
+  Rabs (R_ (mag t) - Rabs (sin (dir a)) / Rabs (cos (dir a)))
+    <= (2000 * (u + 25 / 10000000000000000) + 3 * / 4503599627370496) * (1 + / 25) * (Rabs (sin (dir a)) / Rabs (cos (dir a))).
+Proof. exact tan_value. Qed.
+Print Assumptions C15_tan_value.
